@@ -488,7 +488,7 @@ def nt_c05(r):
 def check_c05(exe, tier, seed, verdict):
     sample = 1
     r, recs, total = export("MC_Comment", {"MaxLines": 3 if tier == "thorough" else 2, "MaxIns": 2, "Export": "TRUE",
-                                           "ExportMaxIns": 1},
+                                           "ExportMaxIns": 1, "Opt": '"none"'},
                             ["CommentInert"], sample=sample, seed=seed)
     if r.violated:
         verdict.violation("C05:model", {"tlc": r.out[-3000:]}, "TLC: inserting a comment line changes the parse in the model\n" + r.out[-1500:])
@@ -498,11 +498,22 @@ def check_c05(exe, tier, seed, verdict):
         feat = sorted({x for i in ins for x in i.get("feat", [])})
         return "C05:%s:%s" % (what, "+".join(feat))
     n, nn, samples = replay_cases(exe, recs, ("g", "k", "v"), verdict, "C05", nt_c05, fp)
+    # the same under the parsing options: a comment line is inert under PYTHON_STYLE (indented comment lines after an
+    # entry in particular) and JOIN_SAME_ENTRIES as well
+    from . import p_options
+    for opt, optstr, fields in (("python", "PYTHON_STYLE=1", ("g", "k", "v")), ("join", "JOIN_SAME_ENTRIES=1", ("g", "k", "vals"))):
+        ro, recso, totalo = export("MC_Comment", {"MaxLines": 2, "MaxIns": 2 if tier == "thorough" else 1, "Export": "TRUE", "ExportMaxIns": 1, "Opt": '"%s"' % opt},
+                                   ["CommentInert"], sample=1, seed=seed)
+        if ro.violated:
+            verdict.violation("C05:model:" + opt, {"tlc": ro.out[-3000:]}, "TLC: inserted comment line changes the parse under %s\n%s" % (opt, ro.out[-1500:]))
+        n += p_options.replay_opt_files(exe, recso, optstr, fields, verdict, "C05-" + opt, pid="C05")
+        nn += sum(1 for x in recso if x.get("nontrivial"))
+        total += totalo
     # random tier: conventional single-line-value files with comment lines over the whole printable alphabet
     from gen import gram
     rnd = random.Random(seed + 5)
     nfiles = 400 if tier == "quick" else 8000
-    files = [gram.random_file(rnd, rnd.randint(2, 12 if tier == "quick" else 30), "none", 0.0, single_line=True, comment_heavy=True) for _ in range(nfiles)]
+    files = [gram.random_file(rnd, rnd.randint(2, 12 if tier == "quick" else 30), rnd.choice(["none", "none", "python", "join"]), 0.0, single_line=True, comment_heavy=True) for _ in range(nfiles)]
     acc = validate_prefix_traces(exe, files, verdict, "C05")
     hard = sum(1 for f in files for a in f["abs"] if a["t"] == "comment" and gram.comment_is_hard(a, f["par"]))
     cov = {"states": r.distinct, "transitions": r.generated, "traces_validated_against_impl": n + acc,
